@@ -22,8 +22,16 @@ OneExec(r) ==
   /\ ~r.panic
   /\ (r.executed => Ok(r))                       \* only root-controlled executables are ever run
   /\ (~Ok(r) => r.err /\ ~r.executed)            \* otherwise an error and nothing is executed
-  /\ (Ok(r) /\ r.anyx => r.executed /\ ~r.err)   \* (non-vacuity: an allowed executable does run)
+\* (that an allowed executable does run and succeeds is not part of the property - on a loaded machine a healthy command
+\*  can fail - it is conformance with Exec.tla and the driver's non-vacuity count)
+C18_AllowedRuns == Is("Exec") /\ Ok(Cur) /\ Cur.anyx => Cur.executed /\ ~Cur.err
 C18_OnlyRootControlled == Is("Exec") => OneExec(Cur)
+\* an executable named without a directory is found through $PATH: whatever runs must be root-controlled (a file of the
+\* same name in the working directory is not what runs, its attributes must not decide)
+C18_BareNameChecked == Is("ExecBare") => ~Cur.panic /\ (Cur.executed => Ok(Cur))
+\* every entry point (daemon, `fan2go sensor`, `fan2go fan`): nothing the configuration names is run unless the
+\* configuration file itself is root-controlled
+C18_CliConfigChecked == Is("CliExec") => (Cur.executed => Ok(Cur))
 \* the check is repeated before every execution
 C18_RecheckedEveryTime == Is("Exec2") => OneExec(Cur.first) /\ OneExec(Cur.second)
 \* the configuration file is tested iff it declares a command sensor or fan
